@@ -267,7 +267,9 @@ def run_driver(h, cfg):
         R.nonconvex = not meta['convex']
     R.pen, R.meta, R.df, R.dmeta, R.y = pen, meta, df, dmeta, y
     Xd = h.const(Xc)
-    X = h.csc(Xd) if cfg.get('sparse') else Xd
+    # 'explicit_zeros': every entry is STORED in the CSC arrays, zeros included (a column that was zeroed in place without
+    # eliminate_zeros()): numerically empty but not structurally empty
+    X = (h.csc(Xd, pattern=[[1] * p for _ in range(n)]) if cfg.get('explicit_zeros') else h.csc(Xd)) if cfg.get('sparse') else Xd
     R.X, R.Xd = X, Xd
     # well-posedness of non-convex penalties w.r.t. the coordinate Lipschitz constants
     if not group and not meta['convex'] and 'gamma' in meta:
